@@ -2610,3 +2610,120 @@ func ruleGlobalReturn(prog *Program, rep *Report, floor int, rels ...string) {
 		rep.Errorf("D-globalreturn examined %d return statements (floor %d)", total, floor)
 	}
 }
+
+// ---------------------------------------------------------------- A-addrretain
+
+// matchAddrRetain: inside a loop the address of a variable that is declared outside the loop is appended to a
+// slice or stored in an element while the loop assigns that variable: every retained pointer is the same
+// pointer, and after the loop all of them show the last value (a per-iteration value hoisted out of its loop).
+func matchAddrRetain(files []*ast.File, info *types.Info) (sites []synSite, examined int) {
+	for _, f := range files {
+		ast.Inspect(f, func(n ast.Node) bool {
+			var body *ast.BlockStmt
+			switch l := n.(type) {
+			case *ast.ForStmt:
+				body = l.Body
+			case *ast.RangeStmt:
+				body = l.Body
+			default:
+				return true
+			}
+			assigned := map[types.Object]bool{}
+			ast.Inspect(body, func(k ast.Node) bool {
+				if as, ok := k.(*ast.AssignStmt); ok && as.Tok != token.DEFINE {
+					for _, l := range as.Lhs {
+						root := ast.Unparen(l)
+						for {
+							if sel, ok := root.(*ast.SelectorExpr); ok {
+								root = ast.Unparen(sel.X)
+								continue
+							}
+							break
+						}
+						if id, ok := root.(*ast.Ident); ok {
+							if o := info.Uses[id]; o != nil {
+								assigned[o] = true
+							}
+						}
+					}
+				}
+				return true
+			})
+			retained := func(e ast.Expr, pos token.Pos) {
+				u, ok := ast.Unparen(e).(*ast.UnaryExpr)
+				if !ok || u.Op != token.AND {
+					return
+				}
+				id, ok := ast.Unparen(u.X).(*ast.Ident)
+				if !ok {
+					return
+				}
+				v, ok := info.Uses[id].(*types.Var)
+				if !ok {
+					return
+				}
+				examined++
+				if v.Pos() >= body.Pos() && v.Pos() <= body.End() {
+					return // a per-iteration variable
+				}
+				if v.Parent() != nil && v.Pkg() != nil && v.Parent() == v.Pkg().Scope() {
+					return // a package-level value handed out on purpose is D-globalreturn's business
+				}
+				if !assigned[v] {
+					return
+				}
+				name := enclosingFuncName(f, pos)
+				sites = append(sites, synSite{pos: pos, file: f, key: fmt.Sprintf("%s:retains-address-of:%s", name, v.Name()),
+					msg: fmt.Sprintf("%s keeps &%s in a loop that also assigns %s, and %s is declared outside the loop: every element kept is the same pointer and ends up showing the last value", name, v.Name(), v.Name(), v.Name())})
+			}
+			ast.Inspect(body, func(k ast.Node) bool {
+				switch x := k.(type) {
+				case *ast.FuncLit:
+					return false
+				case *ast.CallExpr:
+					if id, ok := x.Fun.(*ast.Ident); ok && id.Name == "append" {
+						for _, a := range x.Args[1:] {
+							retained(a, x.Pos())
+						}
+					}
+				case *ast.AssignStmt:
+					for i, l := range x.Lhs {
+						if _, isIx := ast.Unparen(l).(*ast.IndexExpr); isIx && i < len(x.Rhs) {
+							retained(x.Rhs[i], x.Pos())
+						}
+					}
+				}
+				return true
+			})
+			return true
+		})
+	}
+	return
+}
+
+const fixtureAddrRetain = `package fixture
+
+type target struct{ name string }
+
+func hoisted(names []string) (out []*target) {
+	var t target
+	for _, n := range names {
+		t = target{name: n}
+		out = append(out, &t)
+	}
+	return
+}
+
+func perIteration(names []string) (out []*target) {
+	for _, n := range names {
+		t := target{name: n}
+		out = append(out, &t)
+	}
+	return
+}
+`
+
+func ruleAddrRetain(prog *Program, rep *Report, floor int, rels ...string) {
+	rep.Rules = append(rep.Rules, "A-addrretain: no loop appends or stores the address of a variable that is declared outside the loop and assigned inside it ("+strings.Join(rels, ", ")+")")
+	runSynRule(prog, rep, "A-addrretain", rels, matchAddrRetain, fixtureAddrRetain, 1, floor)
+}
